@@ -260,10 +260,15 @@ func ZZVerifC10Hist() {
 		if i == 0 {
 			o := &zzObj{fid: -99}
 			late := &zzFactory{id: 99}
-			nd.Assert(dp.Set("c", o) != nil, "C10/late-set-refused")
-			nd.Assert(dp.SetDefault("c", o) != nil, "C10/late-setdefault-refused")
-			nd.Assert(dp.AddFactory("c", late.fn()) != nil, "C10/late-addfactory-refused")
-			nd.Assert(dp.AddDefaultFactory("c", late.fn()) != nil, "C10/late-adddefaultfactory-refused")
+			// ... for every name, defined or not, resolved or still pending; a
+			// refused definition changes nothing (the later requests are
+			// compared with the unchanged reference)
+			for _, ln := range zzNames[:3] {
+				nd.Assert(dp.Set(ln, o) != nil, "C10/late-set-refused")
+				nd.Assert(dp.SetDefault(ln, o) != nil, "C10/late-setdefault-refused")
+				nd.Assert(dp.AddFactory(ln, late.fn()) != nil, "C10/late-addfactory-refused")
+				nd.Assert(dp.AddDefaultFactory(ln, late.fn()) != nil, "C10/late-adddefaultfactory-refused")
+			}
 		}
 	}
 	for _, f := range facs {
